@@ -57,7 +57,7 @@ def run_shard(ctx):
     L = layout()
     from .. import gen
 
-    huge = gen.huge_cases(L)
+    huge = gen.huge_cases(L) + gen.huge_messages(L)
     for case in ctx.mine(huge):
         ctx.count("huge-encodings")
         ctx.run_plain(lambda case=case: check_case(ctx, L, case), f"huge:{case.type}:{len(case.data)}")
